@@ -1020,6 +1020,13 @@ class Interp:
 
     # ------------------------------------------------------------ calls
     def call(self, callee_text, args, dest_ty=None):
+        r = yield from self._call(callee_text, args, dest_ty)
+        for rx, hook in getattr(self, 'ret_hooks', {}).items():
+            if re.search(rx, callee_text):
+                hook(self, callee_text, args, r)
+        return r
+
+    def _call(self, callee_text, args, dest_ty=None):
         pc = self.ctx.callee_cache.get(callee_text)
         if pc is None:
             pc = parse_callee(callee_text)
